@@ -477,11 +477,11 @@ package stack
 //@   uses cntMainBounds
 
 // ---- bucket.go: the sort comparator (C13) -------------------------------------
-//@ pred noinline BucketLt(l *Bucket, r *Bucket) = l.First != r.First ? l.First : (SigLt(&l.Signature, &r.Signature) || (!SigLt(&r.Signature, &l.Signature) && len(r.IDs) > len(l.IDs)))
+//@ pred noinline BucketLt(l *Bucket, r *Bucket) = l.First != r.First ? l.First : (SigLt(&l.Signature, &r.Signature) || (!SigLt(&r.Signature, &l.Signature) && (len(r.IDs) > len(l.IDs) || (len(r.IDs) == len(l.IDs) && l.IDs[0] < r.IDs[0]))))
 
 //@ func (*Snapshot).Aggregate$1
 //@   requires 0 <= i && i < len(bs) && 0 <= j && j < len(bs)
-//@   requires forall k :: 0 <= k && k < len(bs) ==> bs[k] != nil && LocsOK(bs[k].Stack.Calls)
+//@   requires forall k :: 0 <= k && k < len(bs) ==> bs[k] != nil && LocsOK(bs[k].Stack.Calls) && len(bs[k].IDs) >= 1
 //@   modifies nothing
 //@   ensures [cmpIsSpec C13] result <==> BucketLt(bs[i], bs[j])
 
@@ -502,6 +502,9 @@ package stack
 //@   requires !BucketLt(a, b) && !BucketLt(b, a) && !BucketLt(b, c) && !BucketLt(c, b)
 //@   ensures !BucketLt(a, c) && !BucketLt(c, a)
 //@   uses sigLtTransitive, sigIncomparableTransitive, sigLtAsymmetric
+//@ lemma [C06 C13] bucketLtTotal(a *Bucket, b *Bucket)
+//@   requires a.IDs[0] != b.IDs[0]
+//@   ensures BucketLt(a, b) || BucketLt(b, a)
 //@ lemma [C13] firstBucketFirst(a *Bucket, b *Bucket)
 //@   requires a.First && !b.First
 //@   ensures BucketLt(a, b) && !BucketLt(b, a)
@@ -623,6 +626,9 @@ package stack
 //@   update after-call sort.Ints#1: pos := lambda j :: (owner[j] == c ? perm[pos[j]] : pos[j]); src[c] := lambda p :: src[c][inv[p]]
 //@   update after-call append#2: done[c] := true; bidx[c] := len(bs); cof[len(bs)] := c
 //@   update after-call sort.SliceStable#1: bidx := lambda c :: perm2[bidx[c]]; cof := lambda i :: cof[inv2[i]]
+//@   assert after-call sort.SliceStable#1: [bucketHeads C06 needs=bucketsOK+bucketIDs+finalBase+permutation+permutationInverse] forall i :: 0 <= i && i < len(bs) ==> counts[cof[i]] && bidx[cof[i]] == i && 0 <= src[cof[i]][0] && src[cof[i]][0] < len(s.Goroutines) && owner[src[cof[i]][0]] == cof[i] && len(bs[i].IDs) >= 1 && bs[i].IDs[0] == s.Goroutines[src[cof[i]][0]].ID
+//@   assert after-call sort.SliceStable#1: [distinctHeads C06 needs=bucketHeads] DistinctIDs(s) ==> forall i, j :: 0 <= i && i < j && j < len(bs) ==> bs[i].IDs[0] != bs[j].IDs[0]
+//@   assert after-call sort.SliceStable#1: [totalOrder C06 uses=bucketLtTotal needs=distinctHeads+sortedByComparator] DistinctIDs(s) ==> forall i, j :: 0 <= i && i < j && j < len(bs) ==> BucketLt(bs[i], bs[j])
 //@   ensures [aggregateRefersBack C04] result != nil && fresh(result) && result.Snapshot == s
 //@   ensures [bucketsWellFormed C04 needs=bucketsOK+bucketIDs+finalBase+permutation+permutationInverse] forall i :: 0 <= i && i < len(result.Buckets) ==> result.Buckets[i] != nil && fresh(result.Buckets[i]) && len(result.Buckets[i].IDs) >= 1 && LocsOK(result.Buckets[i].Stack.Calls)
 //@   ensures [bucketsSorted C13 needs=sortedByComparator+permutation+permutationInverse] forall i, j :: 0 <= i && i < j && j < len(result.Buckets) ==> !BucketLt(result.Buckets[j], result.Buckets[i])
@@ -632,7 +638,7 @@ package stack
 //@   at-return [sameBucketIffSimilar C05 uses=sigSimSymmetric+sigSimTransitive needs=membersOKfinal+finalBase] forall i, j :: 0 <= i && i < len(s.Goroutines) && 0 <= j && j < len(s.Goroutines) ==> (owner[i] == owner[j] <==> SimSig(&s.Goroutines[i].Signature, &s.Goroutines[j].Signature, similar))
 //@   at-return [bucketSignatureGeneralisesMembers C12 uses=sigSameTransport needs=membersOKfinal+bucketSigIsKey+bucketsOK+finalBase+permutation+permutationInverse] forall j :: 0 <= j && j < len(s.Goroutines) ==> GenSig(&result.Buckets[bidx[owner[j]]].Signature, &s.Goroutines[j].Signature)
 //@   at-return [matchedKeyIsUnique C06 needs=keysDissimilar+countsOK] true
-//@   at-return [bucketOrderIsTotal C06 needs=bucketsOK+bucketIDs+finalBase+permutation+permutationInverse+sortedByComparator] DistinctIDs(s) ==> forall i, j :: 0 <= i && i < j && j < len(result.Buckets) ==> BucketLt(result.Buckets[i], result.Buckets[j])
+//@   at-return [bucketOrderIsTotal C06 needs=totalOrder] DistinctIDs(s) ==> forall i, j :: 0 <= i && i < j && j < len(result.Buckets) ==> BucketLt(result.Buckets[i], result.Buckets[j])
 //@   at-return [firstFlag C04 needs=bucketsOK+finalBase+permutation+permutationInverse] (forall j :: 0 <= j && j < len(s.Goroutines) && s.Goroutines[j].First ==> result.Buckets[bidx[owner[j]]].First) && (forall i :: 0 <= i && i < len(result.Buckets) && result.Buckets[i].First ==> 0 <= fsrc[cof[i]] && fsrc[cof[i]] < len(s.Goroutines) && s.Goroutines[fsrc[cof[i]]].First && bidx[owner[fsrc[cof[i]]]] == i)
 //@   loop 0: invariant -1 <= rangeindex && rangeindex < len(s.Goroutines) && SnapOK(s)
 //@   loop 0: invariant [countsOK C04 needs=countsOK+sigMergeFresh+sigMergeKeepsFrames+sigMergeStackShape] CountsOK(b, counts, keyOf)
